@@ -9,8 +9,10 @@ check(
     "commands with one bad element, two-key commands RPOPLPUSH/LMOVE/RENAME/RENAMENX/SORT STORE with a wrong-typed or missing operand, stubs, admin, transaction "
     "and script commands), also forwarded by EVAL scripts through redis.call / redis.pcall. Compared: the dump through read commands (keys, types, full values, "
     "PTTL at a held clock) before and after, get_data() restricted to unexpired keys, and a twin executor that never ran the command, including a probe for expiry "
-    "entries left behind on absent keys. Silence means no such pair among the generated ones (150 000 quick / 6 M thorough), not that none exists. One root cause "
-    "is listed and searched past by an exact signature: RPOPLPUSH/LMOVE pop the source before checking the destination's type (KF-C17-01).",
+    "entries left behind on absent keys. A second, enumerated sub-check (big_values, 116 cases) holds one 1 MiB..130 MiB element (sizes aimed at powers of two) as string / list element / "
+    "set member / hash value and runs every data-returning write and large-reply read directly and through one-call redis.call/pcall scripts, plus 64 MiB+ arguments and the 512 MiB "
+    "limit of APPEND/SETRANGE/SETBIT: it looks for resource-limit failures that strike between a command's effect and its reply. Silence means no such pair among the generated ones (150 000 quick / 6 M thorough), not that none exists. One root cause "
+    "was found and is fixed in the tree: RPOPLPUSH/LMOVE popped the source before checking the destination's type (KF-C17-01, fixed).",
     "the read commands used for the snapshot (KEYS, TYPE, GET, LRANGE, SMEMBERS, HGETALL, ZRANGE WITHSCORES, PTTL) report the state faithfully (C01 validates them); "
     "keys already expired at the held clock are invisible, so their lazy removal is not a change; a script that itself changed the keyspace before a later call failed "
     "is not a violation (no rollback in Redis) and abstains; commands rejected by the parser never reach the executor; an executor panic is not an error reply "
